@@ -72,8 +72,22 @@ func (g *Gen) LongStr(nonEmpty bool) string {
 	case k == 3:
 		g.class('P') // periodic text
 		return strings.Repeat("INSERT INTO ks.t (a,b,c) VALUES (?,?,?); ", 50+g.R.Intn(2000))
+	case k == 4:
+		g.class('W') // content that repeats with a period of exactly 64 KiB (the LZ4 window size)
+		return string(g.window64k())
 	}
 	return g.Str(nonEmpty)
+}
+
+// window64k: 64 KiB of 12-byte records followed by the beginning of the same bytes again.
+func (g *Gen) window64k() []byte {
+	blk := make([]byte, 0, 65536+4096)
+	for len(blk) < 65536 {
+		blk = append(blk, g.R.Bytes(6)...)
+		blk = append(blk, "cell=\x00"...)
+	}
+	blk = blk[:65536]
+	return append(blk, blk[:1024+g.R.Intn(3000)]...)
 }
 
 // Blob returns bytes of a length class.
@@ -96,6 +110,9 @@ func (g *Gen) Blob(nonEmpty bool) []byte {
 	case k == 3:
 		g.class('R')
 		return g.R.Bytes(1000 + g.R.Intn(60000))
+	case k == 4 && g.R.Intn(3) == 0:
+		g.class('W')
+		return g.window64k()
 	}
 	g.class('s')
 	return g.R.Bytes(1 + g.R.Intn(24))
